@@ -94,6 +94,8 @@ private:
 
     for (; begin != it; ++begin)
       prev = begin;
+
+    it = prev;
   }
 
   template <class Iter>
